@@ -21,7 +21,7 @@ import numpy as np
 
 import lean
 import engines.C04_lib as L
-from engines.C04_model import split_log, diff_results, expected_exception
+from engines.C04_model import split_log, diff_results, expected_exception, eff
 
 from rsatoolbox.rdm import RDMs
 from rsatoolbox.inference import noise_ceiling as NC
@@ -436,7 +436,7 @@ def plain_result(case, obs):
         for i, s in enumerate(samples):
             rows, conds, ridx, pidx = sample_views(P, case, s)
             if r == 'bcv':
-                kr, kp = case['kr'], case['kp']
+                kr, kp = eff(case)['kr'], eff(case)['kp']
                 if len(uniq(ridx)) >= kr and len(uniq(pidx)) >= 3 * kp:
                     per = 1 + kr
                     reps = [internal_cv(P, rows, conds, pidx, s['sh'][c * per:(c + 1) * per], kr, kp,
@@ -445,7 +445,7 @@ def plain_result(case, obs):
                 else:
                     rows_all.append(None)
             else:
-                nr, npat = case['nr'], case['np']
+                nr, npat = eff(case)['nr'], eff(case)['np']
                 if len(uniq(ridx)) > nr and len(uniq(pidx)) >= 3 + npat:
                     folds = []
                     for c in range(n_cv):
@@ -465,7 +465,7 @@ def plain_result(case, obs):
                                      for c, f in enumerate(folds)])
                 else:
                     rows_all.append(None)
-        F = case['kr'] * case['kp'] if r == 'bcv' else 1
+        F = eff(case)['kr'] * eff(case)['kp'] if r == 'bcv' else 1
         ev, nc = [], [[], []]
         for row in rows_all:
             if row is None:
@@ -482,7 +482,7 @@ def plain_result(case, obs):
         out = {'evals': ev, 'nc': nc, 'dof': dof,
                'cov': cv_cov(ok, M, n_cv, case['use_correction'])}
     elif r == 'dual':
-        kr, kp = case['kr'], case['kp']
+        kr, kp = eff(case)['kr'], eff(case)['kp']
         n_cv, corr = (1, False) if (kr == 1 and kp == 1) else (case['n_cv'], case['use_correction'])
         per = 1 + kr
         allrows = []
@@ -529,8 +529,41 @@ def plain_result(case, obs):
             out['n_pattern'] = nps
     if r in ('bootstrap', 'bcv', 'random', 'dual') and len(ok) < 2:
         out['cov'] = 'undefined'          # fewer than two usable resamples: no sample covariance
+        out['n_usable'] = len(ok)
         out.pop('cov_with_nc', None)
     return none_nan(out), P.problems
+
+
+def expected_rejection(case):
+    """`crossval` cases: does the fold request exceed the number of groups (the set generator
+    must then refuse with an AssertionError), independent of the model"""
+    if case['routine'] != 'crossval':
+        return False
+    ctx = L.Ctx(case)
+    g = case['gen']
+    gr, gp = len(set(ctx.rdesc)), len(set(ctx.pdesc))
+    return ('kr' in g and g['kr'] > gr) or ('kp' in g and g['kp'] > gp)
+
+
+def finite_entries(x):
+    if isinstance(x, list):
+        return [v for y in x for v in finite_entries(y)]
+    return [] if (x is None or (isinstance(x, float) and math.isnan(x))) else [x]
+
+
+def check_optimality(obs):
+    """every observed fit is at least as good, on its own training view, as the competitors the
+    fitter is guaranteed to beat (C04_lib.train_optimality)"""
+    for f in obs.get('fits', []):
+        o = f.get('opt')
+        if not o or o['crit'] is None or math.isnan(o['crit']):
+            continue
+        for tol, vals in ((1e-9, o['strict']), (1e-4, o['loose'])):
+            for v in vals:
+                if v is not None and not math.isnan(v) and o['crit'] < v - tol:
+                    return (f"model {f['j']}: {o['kind']} fit reaches {o['crit']:.9g} on its training "
+                            f"view, a competitor (start / candidate / projection) reaches {v:.9g}")
+    return None
 
 
 # ------------------------------------------------------------------ the oracle
@@ -544,8 +577,12 @@ def oracle(case):
     obs = L.observe(case, fresh=True)
     exp_exc = expected_exception(case)
     feats = {'routine': case['routine'], 'bt': case.get('bt')}
-    if obs.get('callee_exc'):
-        return None
+    if expected_rejection(case):
+        if obs.get('exc') == 'AssertionError' and obs.get('sets_rejected'):
+            return None
+        return {'what': 'a fold request with more folds than groups was not refused',
+                'observed': obs.get('exc', 'a result'), 'expected': 'AssertionError of the set generator',
+                'features': dict(feats, kind='sets')}
     if 'exc' in obs:
         if exp_exc and obs['exc'] == exp_exc:
             return None
@@ -571,8 +608,20 @@ def oracle(case):
         return {'what': 'a fold was not fitted on its own training set only', 'observed': problems[:3],
                 'expected': 'one fitter call per model and fold on exactly the training RDMs/conditions',
                 'features': dict(feats, kind='fit')}
+    bad = check_optimality(obs)
+    if bad:
+        return {'what': 'fitted parameters are worse on the training set than a competitor',
+                'observed': bad, 'expected': 'the fitter maximises the training criterion',
+                'features': dict(feats, kind='fit_opt')}
     if want.get('cov') == 'undefined':
-        want = {k: v for k, v in want.items() if k != 'cov'}
+        # fewer than two usable resamples: the sample covariance does not exist; the routine must
+        # not report a number for it (NaN; numpy's einsum form gives 0 for no resample at all)
+        fin = [v for v in finite_entries(impl.get('cov')) if v != 0]
+        if fin:
+            return {'what': 'a covariance is reported although fewer than two resamples were usable',
+                    'observed': f"{len(fin)} finite entries, e.g. {fin[0]!r} ({want.get('n_usable')} usable)",
+                    'expected': 'NaN (undefined)', 'features': dict(feats, kind='cov_undefined')}
+        want = {k: v for k, v in want.items() if k not in ('cov', 'n_usable')}
         impl = {k: v for k, v in impl.items() if k != 'cov'}
     d = diff_results(case, impl, want, 'stored', 'direct computation')
     if d:
